@@ -712,6 +712,7 @@ fn c14(seed: u64, thorough: bool) -> Scenario {
     }
     g.world.args.long_flags = g.rng.chance(1, 2);
     g.world.args.flags_last = g.rng.chance(1, 3);
+    g.world.args.joined_flags = g.rng.chance(1, 3);
     let (world, plan) = g.finish();
     let mut prng = Rng::new(mix(seed, "plans"));
     let k = if thorough { 12 } else { 4 };
@@ -881,6 +882,7 @@ fn c15(seed: u64, thorough: bool) -> Scenario {
         tags.push("stdin=diff".into());
     }
     g.world.args.list = g.rng.chance(1, 3);
+    g.world.args.joined_flags = g.rng.chance(1, 3);
     g.world.poison_out_of_scope = true;
     // cwd for level B
     let dirs: BTreeSet<String> = g
@@ -926,9 +928,11 @@ fn c18(seed: u64, thorough: bool) -> Scenario {
     };
     g.gen_files(&cfg);
     let mut tags = Vec::new();
-    g.world.env.lua_mode = match g.rng.below(5) {
+    g.world.env.lua_mode = match g.rng.below(8) {
         0 => None,
         1 => Some("sandboxed".into()),
+        2 => Some("unsafe".into()),
+        3 => Some("Safe-ish".into()), // any other value behaves like the default
         _ => Some("safe".into()),
     };
     let fault_cfg = g.rng.chance(1, 2);
